@@ -69,6 +69,12 @@ def drv_evaluate(case):
                        "res_top": proj.bounds(top)})
     for k, asg in enumerate(box):
         point(asg, {}, k)
+    # the statement does not restrict the given values to the declared bounds (variable.evaluate is documented with values outside)
+    for k in range(min(3, len(box))):
+        asg = dict(rng.choice(box))
+        v = rng.choice(lv)
+        asg[v.id] = proj.I(v.bounds.upper) + 1 + k if k % 2 == 0 else proj.I(v.bounds.lower) - 1 - k
+        point(asg, {}, k)
     # overrides of sub-proposition ids (and of the top id) with constants
     overs = [{c: v} for c in comps for v in (0, 1)]
     overs += [{c1: v1, c2: v2} for c1, c2 in itertools.combinations(comps, 2) for v1 in (0, 1) for v2 in (0, 1)]
@@ -77,6 +83,33 @@ def drv_evaluate(case):
         for asg in (box if len(box) <= 8 else rng.sample(box, 4)):
             point(asg, over, k)
     return [{"op": "evaluate", "model": pm, "points": points}]
+
+def _critical_points(m, rng, n_extra=24):
+    """for models with wide leaf ranges: every leaf at lower / upper bound and around the thresholds of the nodes above it"""
+    lv = proj.leaves(m)
+    vals = {}
+    thr = set()
+    for c in _compounds(m):
+        thr.update({proj.I(c.value), proj.I(c.value) - 1, -proj.I(c.value), -proj.I(c.value) + 1, proj.I(c.value) + 1})
+    for v in lv:
+        lo, hi = proj.I(v.bounds.lower), proj.I(v.bounds.upper)
+        cand = {lo, hi, lo + 1, hi - 1, 0, 1, -1} | thr
+        vals[v.id] = sorted(x for x in cand if lo <= x <= hi)
+    pts, seen = [], set()
+    def add(p):
+        key = tuple(sorted(p.items(), key=str))
+        if key not in seen:
+            seen.add(key); pts.append(p)
+    for pick in (0, -1):
+        add({v.id: vals[v.id][pick] for v in lv})
+    for v in lv:                                     # one leaf sweeps its critical values, the others at a random critical value
+        for x in vals[v.id]:
+            p = {w.id: rng.choice(vals[w.id]) for w in lv}
+            p[v.id] = x
+            add(p)
+    for _ in range(n_extra):
+        add({v.id: rng.randint(proj.I(v.bounds.lower), proj.I(v.bounds.upper)) if rng.random() < 0.5 else rng.choice(vals[v.id]) for v in lv})
+    return pts
 
 def _evals(m, box, tok, puan, k0=0):
     """library evaluate_propositions on every total assignment of the box"""
@@ -94,7 +127,10 @@ def drv_to_poly(case):
     if not _valid(m): return []
     tok = proj.Tok()
     box = _box(proj.leaves(m))
-    if box is None: return []
+    wide = box is None
+    if wide:
+        if not case.get("wide"): return []
+        box = _critical_points(m, random.Random(case.get("seed", 0)))
     pm = proj.node(m, tok)
     pts = _evals(m, box, tok, puan)
     out = []
@@ -102,7 +138,7 @@ def drv_to_poly(case):
         p = m.to_ge_polyhedron(active=active)
         rows, cols = proj.polyhedron(p, tok)
         out.append({"op": "to_poly", "model": pm, "active": active, "rows": rows, "cols": cols, "points": pts,
-                    "after": proj.node(m, tok)})
+                    "after": proj.node(m, tok), "wide": wide})
     return out
 
 def drv_to_poly2(case):
@@ -111,16 +147,22 @@ def drv_to_poly2(case):
     if not _valid(m): return []
     tok = proj.Tok()
     box = _box(proj.leaves(m))
-    if box is None: return []
+    wide = box is None
+    if wide:
+        if not case.get("wide"): return []
+        box = _critical_points(m, random.Random(case.get("seed", 0)))
     pm = proj.node(m, tok)
     pts = []
     for k, asg in enumerate(box):
-        pts.append({"asg": proj.pairs_int(asg, tok), "ev": [[pm["id"], proj.bounds(m.evaluate({i: _form(v, k, puan) for i, v in asg.items()}))]]})
+        I1 = {i: _form(v, k, puan) for i, v in asg.items()}
+        ev = dict(m.evaluate_propositions(dict(I1)))
+        ev[m.id] = m.evaluate(dict(I1))
+        pts.append({"asg": proj.pairs_int(asg, tok), "ev": proj.pairs_iv(ev, tok)})
     p = m.to_ge_polyhedron(active=True)
     rows, cols = proj.polyhedron(p, tok)
     naux = len(cols) - len(box[0]) if box else 0
-    full = len(box) * (2 ** max(naux, 0)) <= case.get("max_full", 1 << 14)
-    return [{"op": "to_poly2", "model": pm, "rows": rows, "cols": cols, "points": pts, "full": full,
+    full = (not wide) and len(box) * (2 ** max(naux, 0)) <= case.get("max_full", 1 << 14)
+    return [{"op": "to_poly2", "model": pm, "rows": rows, "cols": cols, "points": pts, "full": full, "wide": wide,
              "recipe": B.recipe_tokens(case["recipe"], tok)}]
 
 # ----------------------------------------------------------------------------- C05
@@ -378,7 +420,9 @@ def drv_b64(case):
     if not _valid(m): return []
     tok = proj.Tok()
     box = _box(proj.leaves(m))
-    if box is None: return []
+    if box is None:
+        if not case.get("wide"): return []
+        box = _critical_points(m, random.Random(case.get("seed", 0)), n_extra=4)
     is_cfg = case["recipe"]["c"] == "Cfg"
     s = m.to_b64()
     back = pg.from_b64(s)
@@ -386,6 +430,15 @@ def drv_b64(case):
             "shorts_before": _shorts(m, tok), "shorts_after": _shorts(back, tok),
             "q_before": _battery(m, box, tok, puan, is_cfg), "q_after": _battery(back, box, tok, puan, is_cfg),
             "again": proj.node(pg.from_b64(s), tok), "same_string": bool(back.to_b64() == s)}]
+    import zlib
+    if not (is_cfg or zlib.crc32(s.encode()) % 4 == 0):
+        return out
+    s2 = m.to_b64()                                   # m has answered the whole battery by now
+    back2 = pg.from_b64(s2)
+    out.append({"op": "b64", "model": proj.node(m, tok), "back": proj.node(back2, tok),
+                "shorts_before": _shorts(m, tok), "shorts_after": _shorts(back2, tok),
+                "q_before": _battery(m, box, tok, puan, is_cfg), "q_after": _battery(back2, box, tok, puan, is_cfg),
+                "again": proj.node(pg.from_b64(s2), tok), "same_string": bool(s2 == s), "round": 2})
     if is_cfg:
         import puan.ndarray as pnd
         from . import solvers
@@ -398,7 +451,7 @@ def drv_b64(case):
             prios = [{}, {tok.rev[ids[-1]]: 2, tok.rev[ids[0]]: -1}] if ids else [{}]
             r = []
             for mode in ("capture", "exact"):
-                if mode == "exact" and len(ids) > 12: continue
+                if mode == "exact" and _box_of_cols(pP["cols"]) > (1 << 12): continue
                 cs = solvers.Capture(mode)
                 res = list(poly.select(*prios, solver=cs))
                 r.append({"objs": [[proj.I(x) for x in o] for c in cs.calls for o in c["objectives"]],
